@@ -194,7 +194,7 @@ def _cmakedefine_chunk(chunk):
     for line in chunk:
         for ci, conf in enumerate(DEFCONFS):
             for fmt in ('cmake', 'cmake@'):
-                exp = ref_cmakedefine(line, conf)
+                exp = keep_eol(ref_cmakedefine(line, conf), line)
                 nt += 1
                 try:
                     res, _gm, _ = do_conf_str('src', [line], CD(conf), fmt)
@@ -204,6 +204,13 @@ def _cmakedefine_chunk(chunk):
                 if res != [exp]:
                     fails.append({'case': {'line': line, 'conf': ci, 'format': fmt}, 'stage': 'cmakedefine', 'detail': f'output {res!r}, reference {[exp]!r}'})
     return len(chunk) * len(DEFCONFS) * 2, nt, fails
+
+
+def keep_eol(rendered, line):
+    """a define line keeps the line ending of the template ("copies every other byte (including line endings) unchanged"); a
+    define line with no terminator at all gets '\\n' (as upstream's own do_conf_str tests pin)"""
+    eol = line[len(line.rstrip('\r\n')):]
+    return rendered if rendered == 'error' or not eol else rendered[:-1] + eol
 
 
 def spec_define(line, conf):
@@ -228,7 +235,7 @@ def _define_chunk(chunk):
     fails, nt = [], 0
     for line, ci in chunk:
         conf = DCONFS[ci]
-        exp = spec_define(line, conf)
+        exp = keep_eol(spec_define(line, conf), line)
         try:
             res, _, _ = do_conf_str('src', [line], CD(conf), 'meson')
             got = res[0]
@@ -262,7 +269,7 @@ def _file_chunk(chunk):
             exp = []
             for ln in re.findall(r'[^\r\n]*(?:\r\n|\r|\n)|[^\r\n]+', text):
                 if ln.lstrip().startswith('#mesondefine'):
-                    exp.append(spec_define(ln, conf))
+                    exp.append(keep_eol(spec_define(ln, conf), ln))
                 else:
                     exp.append(spec_replace(ln, conf)[0])
             exp = 'error' if 'error' in exp else ''.join(exp)
